@@ -11,10 +11,13 @@ def build(tier, seed):
         "positions, is no longer than the traversed region; overlapping reads => PacketError"
     obs = obligations("C01", rel, tier, "H.h_roundtrip(SPEC, CLS, raw, off, KEY)", assertion=a)
     obs += obligations("C01", absol, tier, "H.h_roundtrip(SPEC, CLS, raw, off, KEY)", offmax=0, idsuffix="/off0", assertion=a)
-    obs += obligations("C01", absol, tier, "H.h_roundtrip(SPEC, CLS, raw, off, KEY, True)", offmin=1,
-                       offmax=1 if tier == "quick" else 2, idsuffix="/offnz", assertion=a, min_len=1)
+    nz = absol if tier != "quick" else [e for e in absol if e["key"] in ("s_align_begins", "s_at_begins", "s_seq_aligned")]
+    obs += obligations("C01", nz, tier, "H.h_roundtrip(SPEC, CLS, raw, off, KEY, True)", offmin=1,
+                       offmax=1 if tier == "quick" else 2, idsuffix="/offnz", assertion=a, min_len=1, required=())
     for o in obs:
         o["collect_all"] = True
+        if "alwaysoverlap" in o["entry_tags"]:
+            o["required_tags"] = ["overlap-rejected"]
     return {"obligations": obs,
             "bounds": {"declarations": [e["key"] for e in entries]},
             "outside": ["declarations excluded by the property: non-kept regex delimiter matching different strings, "
